@@ -300,12 +300,12 @@ def build_race_harness():
     return rc == 0, o
 
 
-def run_conc(seed, per_domain, goroutines=64, timeout=3000):
+def run_conc(seed, per_domain, goroutines=64, timeout=3000, domains=None):
     """generate a mix of ops, run them sequentially and from `goroutines` goroutines under -race.
     returns (ok, summary line, race report or mismatch text, number of ops, ops file path)"""
     ops = os.path.join(BUILD, f"ops-conc-{seed}.txt")
     with open(ops, "w") as f:
-        for d in CONC_DOMAINS:
+        for d in (domains or CONC_DOMAINS):
             p = subprocess.run([os.path.join(BUILD, "harness"), "gen", d, "-seed", str(seed), "-n", "60", "-tier", "quick", "-facts", FACTS],
                                stdout=subprocess.PIPE, stderr=subprocess.PIPE, text=True)
             lines = p.stdout.splitlines()
